@@ -16,7 +16,7 @@ LEVEL_TEXT = {
  'C03': 'PARTIAL. Coq model of the lock discipline of memmap.go/mem/file.go (one action per lock operation; the per-function lock table is regenerated from the AST on every run and must equal the declared one) with theorems over all schedules and all programs of the class: every conflicting pair of annotated accesses is ordered (lockset / happens-before), no deadlock (lock order), no unlock error, no lock leak, locks balanced after a panic, quiescent tree consistency. The Go memory model, the race detector and the scheduler are outside the model: -race stress in child processes (pair matrix + random program sets, watchdog for deadlocks, race-report parser) and a post-quiescence consistency sweep search for failing executions.',
  'C04': 'PARTIAL. Coq theorem: every history of a machine whose calls take effect in one atomic step of the sequential model is linearizable (any threads, any schedule); methods with several critical sections are modelled by explicit section tables whose shape is read from the source on every run (today: all in the one-section position, by reflexivity facts), with refutation theorems for every split shape. Tie/search: concurrent histories of the real MemMapFs (stress under real preemption, window programs, and an instrumented cooperative scheduler exploring schedules by DFS/random) are searched for a linearization against the EXTRACTED sequential model (verified checker) plus direct checks of the exactly-one-winner and torn-read clauses. Outside the model: which Go lock protects which section against which handle operation.',
  'C05': 'Coq theorems for ANY base satisfying contract K and any overlay: every call CopyOnWriteFs/UnionFile/copy-up makes on the base is one a ReadOnlyFs would forward, hence the base view is frozen over all op sequences and flag words; K proved for MemMapFs. Tie: cow(mem,mem) differential against the model; oracle: deep snapshot of the base before/after every step incl. all 4096 combinations of 12 O_* bits.',
- 'C06': 'Coq theorems over arbitrary inner filesystems: lookup is overlay-then-base, merged listing is duplicate-free union with overlay winning, pages partition the listing, Readdir(-1) consumes it; copy-up/write-read-back proved for MemMapFs layers under stated shape hypotheses (_partial). Tie + oracle: union view compared with overlay-over-base computed from direct dumps of both layers after every step, listings in pages (incl. huge counts), entries vs Stat, copy-up of multi-block files, an OsFs overlay scenario.',
+ 'C06': 'Coq theorems over arbitrary inner filesystems: lookup is overlay-then-base, merged listing is duplicate-free union with overlay winning, pages partition the listing, Readdir(-1) consumes it; copy-up (any depth of missing overlay directories, any spelling), write/read-back against the C02 byte array (all flag words, all handle-method sequences) and failed-call-leaves-view-unchanged (all Fs and handle methods) proved for MemMapFs layers in every state satisfying the C01 invariant; one excluded corner refuted with a replayed witness (base directory carrying bytes). Tie + oracle: union view compared with overlay-over-base computed from direct dumps of both layers after every step, listings in pages (incl. huge counts), entries vs Stat, copy-up of multi-block files, many-entry directories, kind-conflict layers, an OsFs overlay scenario.',
  'C07': 'Coq theorems for ANY source with contract K (proved for MemMapFs, inherited through BasePathFs/ReadOnlyFs): mutators return EPERM without consulting the source, reads are transparent, the source view is frozen over all op sequences and all integer flag values. Tie: differential on ro(mem), ro(bp(mem)), ro(ro(mem)); oracle: deep source snapshot per step, flag sweep.',
  'C08': 'Coq theorems for every root and every name string: RealPath results lie segment-wise below the cleaned root (incl. nested roots, Symlink/Lstat/Readlink names, httpDir targets), the wrapper makes one forwarded call whose names are all confined, escaping names are refused without touching the source. Tie: exhaustive RealPath/httpDir comparison on short names, op sequences with prefix-sharing siblings; oracle: everything outside the root unchanged and never leaked.',
  'C09': 'Coq theorems: for in-root names each BasePathFs op equals the source op with Clean(Join(D,name)), Name() is the path relative to D, stacking equals the joined root (for names/roots that never step up; counterexample otherwise), FullBaseFsPath is the joined path. Tie + oracle: twin MemMapFs with joined paths, per-step equality and equal final snapshots.',
